@@ -503,21 +503,22 @@ func RawSyscall(trap, a1, a2, a3 uintptr) (r1, r2 uintptr, err syscall.Errno) {
 			return ^uintptr(0), 0, syscall.ECONNRESET
 		}
 		if led.Dev.ReadShort && total > 0 {
-			// options: 0 real, 1 EAGAIN, 2 EINTR, 3.. short
+			// options: 0 real, 1.. short (the kernel hands over fewer bytes than are pending).
+			// EAGAIN / EINTR are NOT injected: a non-blocking readv never reports "nothing there"
+			// while data is pending, and netpoll (like everybody) takes that answer as "drained";
+			// an earlier version offered them and made the thorough tier report data lost at a
+			// hang-up - an answer no kernel gives (false alarm, corrected here). The genuine EAGAIN
+			// of an empty socket is of course still the real call's own answer.
 			so := []int{1, 2}
 			if total < 3 {
 				so = so[:0]
 			}
-			c := vsched.Choose(3+len(so), "readv")
-			if c == 1 {
-				return ^uintptr(0), 0, syscall.EAGAIN
-			}
-			if c == 2 {
-				return ^uintptr(0), 0, syscall.EINTR
-			}
-			if c >= 3 {
-				ivs := truncIov((*syscall.Iovec)(unsafe.Pointer(a2)), int(a3), so[c-3])
-				return syscall.RawSyscall(trap, a1, uintptr(unsafe.Pointer(&ivs[0])), uintptr(len(ivs)))
+			if len(so) > 0 {
+				c := vsched.Choose(1+len(so), "readv")
+				if c >= 1 {
+					ivs := truncIov((*syscall.Iovec)(unsafe.Pointer(a2)), int(a3), so[c-1])
+					return syscall.RawSyscall(trap, a1, uintptr(unsafe.Pointer(&ivs[0])), uintptr(len(ivs)))
+				}
 			}
 		}
 		return syscall.RawSyscall(trap, a1, a2, a3)
